@@ -36,13 +36,13 @@ type HelperCall struct {
 // C03Case is a C03 run.
 type C03Case struct {
 	Common
-	Variant string       `json:"variant"`
-	Remote  bool         `json:"remote,omitempty"`
+	Variant string `json:"variant"`
+	Remote  bool   `json:"remote,omitempty"`
 	// OldServer (remote runs): the server predates the Teardown / TeardownAndDestroy RPCs, the client falls back to its own helpers
-	OldServer bool `json:"old_server,omitempty"`
-	Pre     []RMWCall    `json:"pre"`
-	Helpers []HelperCall `json:"helpers"`
-	Actors  [][]RMWCall  `json:"actors"`
+	OldServer bool         `json:"old_server,omitempty"`
+	Pre       []RMWCall    `json:"pre"`
+	Helpers   []HelperCall `json:"helpers"`
+	Actors    [][]RMWCall  `json:"actors"`
 }
 
 type c03 struct{}
